@@ -264,7 +264,19 @@ fn enforcement_case(cfg: &Config, tmp: &std::path::Path, idx: u64, r: &mut Rng, 
         side.push_str(rule);
     };
     let class: &'static str;
-    match r.below(9) {
+    match r.below(10) {
+        9 => {
+            // a purely positive cycle among private predicates: non-tight, so it is only refused
+            // for its private recursion when tightness is bypassed
+            class = "private-recursion-positive-cycle-with-bypass";
+            bypass = true;
+            let rules = match r.below(3) {
+                0 => "ppc(X) :- ppc(X), X = 1..2.".to_string(),
+                1 => "ppa(X) :- ppb(X), X = 1..2.\nppb(X) :- ppa(X), X = 1..2.".to_string(),
+                _ => "ppr :- ppr.".to_string(),
+            };
+            if which_side_right { add(&mut t.right, &rules) } else { t.left = Either::Left(format!("{left}\n{rules}")) }
+        }
         0 => {
             // non-tight program without bypass: positive cycle through a long chain, a choice head
             class = "non-tight-program";
@@ -339,7 +351,7 @@ fn enforcement_case(cfg: &Config, tmp: &std::path::Path, idx: u64, r: &mut Rng, 
     let side_prog = |right: bool| -> Option<&asp::Program> { if right { Some(&parsed.right) } else { parsed.left.as_ref().left() } };
     let confirmed = match class {
         "non-tight-program" => [true, false].iter().any(|s| side_prog(*s).map(|p| !ref_is_tight(p)).unwrap_or(false)),
-        "private-recursion-negative-cycle" | "choice-rule-with-private-head" => [true, false].iter().any(|s| {
+        "private-recursion-negative-cycle" | "choice-rule-with-private-head" | "private-recursion-positive-cycle-with-bypass" => [true, false].iter().any(|s| {
             side_prog(*s)
                 .map(|p| {
                     let privs: Vec<P> = program_preds(p).into_iter().filter(|q| !pubs.contains(q)).collect();
